@@ -25,7 +25,13 @@ pub fn run(ctx: &Ctx, rep: &mut Report) {
         rep.begin_universe(uni);
         let delay = delays[(uni / seqs) as usize % delays.len()];
         let mut code = uni % seqs;
-        let t0 = 1_000_000u64 + rng.below(1000);
+        // deployment at the very first ledger time, right after it, at an ordinary time, or very late
+        let t0 = match rng.below(6) {
+            0 => 0,
+            1 => 1,
+            2 => u64::MAX - 1_000_000 - rng.below(1000),
+            _ => 1_000_000u64 + rng.below(1000),
+        };
         let mut u = U::with_ledger(100, t0);
         let mut ring = KeyRing::default();
         let owner = u.principal();
@@ -114,5 +120,5 @@ pub fn run(ctx: &Ctx, rep: &mut Report) {
     req.extend(["rel:before", "rel:at", "rel:after", "final-at"].iter().map(|s| s.to_string()));
     rep.notes.insert("required".into(), json!(req));
     rep.notes.insert("bounds".into(), json!({"delays": delays.iter().map(|d| d.to_string()).collect::<Vec<_>>(), "sequence_length": len, "options_per_step": 16}));
-    rep.notes.insert("rule".into(), json!("exhaustive within bounds: for every minimum delay, every sequence of the stated length over (time offset in {no time passing, boundary-1, boundary, boundary+1} relative to last successful rotation + delay) x (kind in {plain, bypass with operator, bypass without operator, plain with insufficient proof}); the ledger timestamp is set explicitly before each call and never decreases; deployment counts as the first rotation; each history ends with rolled-back probes one second before and exactly at the boundary. distinct = (delay, kind, before/at/after boundary, expectation, outcome, epoch)"));
+    rep.notes.insert("rule".into(), json!("exhaustive within bounds: for every minimum delay, every sequence of the stated length over (time offset in {no time passing, boundary-1, boundary, boundary+1} relative to last successful rotation + delay) x (kind in {plain, bypass with operator, bypass without operator, plain with insufficient proof}); the ledger timestamp is set explicitly before each call and never decreases; deployment (at ledger time 0, 1, an ordinary time or close to the end of the u64 range) counts as the first rotation; each history ends with rolled-back probes one second before and exactly at the boundary. distinct = (delay, kind, before/at/after boundary, expectation, outcome, epoch)"));
 }
